@@ -1,0 +1,164 @@
+//! Read-only observation hooks for external verification tooling.
+//!
+//! This module is only compiled with `--cfg wax_verif`. It exposes the compiled artefacts of
+//! programs (the regular expressions that matching delegates to), the token tree of a glob and a
+//! thread-local event sink that records the steps of a directory walk. Nothing in this module
+//! changes the behaviour of the crate.
+
+use std::cell::RefCell;
+use std::fmt::Write as _;
+use std::path::PathBuf;
+
+use crate::token::{
+    Archetype, BranchKind, ExpressionMetadata, LeafKind, Token, TokenTopology, TokenTree,
+    Wildcard,
+};
+use crate::{Any, Glob};
+
+/// A step of a directory walk, recorded in program order.
+#[derive(Clone, Debug)]
+pub enum Event {
+    /// `WalkTree::next` returned an entry or an error.
+    Yield {
+        path: Option<PathBuf>,
+        depth: usize,
+        is_dir: bool,
+        /// `None` for an entry, otherwise `"io"` or `"loop"`.
+        error: Option<&'static str>,
+    },
+    /// `WalkTree::next` returned `None`.
+    End,
+    /// `WalkTree::cancel_walk_tree` was called. `effective` is the value of the `is_dir` flag.
+    Cancel { effective: bool },
+    /// A filtering combinator (`not` or `filter_entry`) examined a separation. `input` is `F`
+    /// (filtrate), `N` (node residue) or `T` (tree residue).
+    LayerIn { input: char },
+    /// The verdict of that combinator: `-` (keep), `N` (discard file) or `T` (discard tree).
+    LayerVerdict { verdict: char },
+}
+
+thread_local! {
+    static SINK: RefCell<Option<Vec<Event>>> = const { RefCell::new(None) };
+}
+
+/// Installs an empty event sink on the current thread.
+pub fn install() {
+    SINK.with(|sink| *sink.borrow_mut() = Some(Vec::new()));
+}
+
+/// Removes the event sink of the current thread and returns its events.
+pub fn take() -> Vec<Event> {
+    SINK.with(|sink| sink.borrow_mut().take().unwrap_or_default())
+}
+
+pub(crate) fn emit(f: impl FnOnce() -> Event) {
+    SINK.with(|sink| {
+        if let Some(events) = sink.borrow_mut().as_mut() {
+            events.push(f());
+        }
+    });
+}
+
+impl<'t> Glob<'t> {
+    /// The regular expression that `is_match` and `matched` delegate to.
+    pub fn verif_pattern(&self) -> &str {
+        self.program.as_str()
+    }
+
+    /// The token tree of the glob as JSON.
+    pub fn verif_tokens(&self) -> String {
+        let mut out = String::new();
+        tokens_to_json(self.tree.as_ref().as_token(), &mut out);
+        out
+    }
+}
+
+impl<'t> Any<'t> {
+    /// The regular expression that `is_match` and `matched` delegate to.
+    pub fn verif_pattern(&self) -> &str {
+        self.program.as_str()
+    }
+}
+
+fn push_char(out: &mut String, x: char) {
+    let _ = write!(out, "{}", u32::from(x));
+}
+
+fn tokens_to_json(token: &Token<'_, ExpressionMetadata>, out: &mut String) {
+    let (start, n) = *token.annotation();
+    let _ = write!(out, "{{\"span\":[{},{}],", start, n);
+    match token.topology() {
+        TokenTopology::Leaf(leaf) => match leaf {
+            LeafKind::Class(class) => {
+                let _ = write!(out, "\"k\":\"class\",\"neg\":{},\"items\":[", class.is_negated());
+                for (i, archetype) in class.archetypes().iter().enumerate() {
+                    if i > 0 {
+                        out.push(',');
+                    }
+                    let (a, b) = match archetype {
+                        Archetype::Character(x) => (*x, *x),
+                        Archetype::Range(a, b) => (*a, *b),
+                    };
+                    out.push('[');
+                    push_char(out, a);
+                    out.push(',');
+                    push_char(out, b);
+                    out.push(']');
+                }
+                out.push(']');
+            },
+            LeafKind::Literal(literal) => {
+                let _ = write!(out, "\"k\":\"lit\",\"ci\":{},\"s\":[", literal.is_case_insensitive());
+                for (i, x) in literal.text().chars().enumerate() {
+                    if i > 0 {
+                        out.push(',');
+                    }
+                    push_char(out, x);
+                }
+                out.push(']');
+            },
+            LeafKind::Separator(_) => out.push_str("\"k\":\"sep\""),
+            LeafKind::Wildcard(Wildcard::One) => out.push_str("\"k\":\"one\""),
+            LeafKind::Wildcard(Wildcard::ZeroOrMore(evaluation)) => {
+                let _ = write!(
+                    out,
+                    "\"k\":\"zom\",\"lazy\":{}",
+                    matches!(evaluation, crate::token::Evaluation::Lazy),
+                );
+            },
+            LeafKind::Wildcard(Wildcard::Tree { has_root }) => {
+                let _ = write!(out, "\"k\":\"tree\",\"lead\":{}", has_root);
+            },
+        },
+        TokenTopology::Branch(branch) => {
+            let (kind, tokens): (&str, Vec<&Token<'_, ExpressionMetadata>>) = match branch {
+                BranchKind::Alternation(alternation) => {
+                    ("alt", alternation.tokens().iter().collect())
+                },
+                BranchKind::Concatenation(concatenation) => {
+                    ("cat", concatenation.tokens().iter().collect())
+                },
+                BranchKind::Repetition(repetition) => {
+                    let (lower, upper) = repetition.bound_specification();
+                    let _ = write!(out, "\"lo\":\"{}\",", lower);
+                    match upper {
+                        Some(upper) => {
+                            let _ = write!(out, "\"hi\":\"{}\",", upper);
+                        },
+                        None => out.push_str("\"hi\":null,"),
+                    }
+                    ("rep", vec![repetition.token()])
+                },
+            };
+            let _ = write!(out, "\"k\":\"{}\",\"ts\":[", kind);
+            for (i, token) in tokens.into_iter().enumerate() {
+                if i > 0 {
+                    out.push(',');
+                }
+                tokens_to_json(token, out);
+            }
+            out.push(']');
+        },
+    }
+    out.push('}');
+}
